@@ -71,6 +71,18 @@ func main() {
 				if filepath.Base(f) == "lexer.go" {
 					n = rewriteLexer(af, total)
 				}
+				// every sync/atomic operation of the parser package is a schedule point
+				// too (an edit may add lock-free state that outlives one ParseSrc call)
+				for _, im := range af.Imports {
+					if im.Path.Value == `"sync/atomic"` {
+						im.Path.Value = `"github.com/mattn/anko/vhook/vatomic"`
+						if im.Name == nil {
+							im.Name = ast.NewIdent("atomic")
+						}
+						n++
+						total["parser.atomicimport"]++
+					}
+				}
 			}
 			if n == 0 {
 				continue
